@@ -71,7 +71,7 @@ func init() {
 			"all sequences up to the length bound, each with every placement of one '(' ')' pair, of a lone '(' and of a lone ')', plus random longer sequences with random parentheses; " +
 			"the directive tree the real scanner+core build (hook: scan-only entry and tree accessors) must be isomorphic (kind, keyword offset, children order) to the tree of a 40-line reference walk written from the statement over the repo's public admissibility table, " +
 			"and the rejection class (incorrect context / no context to close / unclosed context) must agree exactly; a second family checks the tree after MACRO/PASTE expansion against the reference run on the sequence with the macro body written in place; " +
-			"a third cuts a random sequence at any element boundary (also between a directive and its '(' or before a ')') and moves the tail into an included file: inclusion is textual, so rejection class and tree (kinds and nesting) must equal those of the uncut text. " +
+			"a third cuts a random sequence at any element boundary (also between a directive and its '(' or before a ')') and moves the tail into an included file: inclusion is textual, so rejection class and tree (kinds and nesting) must equal those of the uncut text; the same with a run in the middle moved out and the rest left behind the INCLUDE line (also inside parentheses the including file has open; runs that leave a parenthesis of their own open, and cuts between a directive and its '(', are skipped: a file answers for the parentheses it opens). " +
 			"distinct_nontrivial = distinct (context kind, incoming kind, decision) triples decided by the reference on the executed sequences",
 		Assumptions: []string{
 			"'(' is only emitted directly after a directive that has no free-text body (after Description a '(' line is text by the language)",
@@ -636,6 +636,7 @@ func c06EvalSplit(t *fw.T, c *fw.Case) {
 	dSplit := run.Doc{Files: map[string][]byte{"root.jst": []byte(head + "INCLUDE tail.jst\n"), "tail.jst": []byte(tail)}, Root: "root.jst"}
 	c.Docs = []run.Doc{dWhole, dSplit}
 	ow := t.ExecKeep(dWhole)
+	defer c06MiddleSplit(t, c, seq, r, whole, ow)
 	os := t.ExecKeep(dSplit)
 	if os.Outcome == run.Panic || os.Outcome == run.Budget {
 		t.Violation("split-panic", fmt.Sprintf("%s %s; root %q tail %q", os.Outcome, os.PanicVal, head, tail))
@@ -673,6 +674,94 @@ func c06EvalSplit(t *fw.T, c *fw.Case) {
 		last = "close-paren"
 	}
 	t.Distinct("split before " + last)
+}
+
+// c06MiddleSplit: a run in the middle of the sequence goes to an included file, the rest stays behind the INCLUDE line.
+// A file answers for the parentheses it opens itself (it may close one of the including file's), so runs that leave one
+// of their own open are not comparable and are skipped; parentheses of the including file that are open around the
+// INCLUDE are none of the included file's business.
+func c06MiddleSplit(t *fw.T, c *fw.Case, seq []int, r *xrand.Rand, whole string, ow *run.Obs) {
+	if len(seq) < 3 {
+		return
+	}
+	i := r.Range(1, len(seq)-2)
+	j := r.Range(i+1, len(seq)-1)
+	depth, around := 0, 0
+	for _, s := range seq[:i] {
+		if s == -1 {
+			around++
+		} else if s == -2 && around > 0 {
+			around--
+		}
+	}
+	for _, s := range seq[i:j] {
+		switch {
+		case s == -1:
+			depth++
+		case s == -2:
+			if depth > 0 {
+				depth--
+			}
+		case s >= 0 && c06Spellings[s].kind == directive.Jsight:
+			return
+		}
+	}
+	if depth != 0 {
+		t.Count("middle_split_skipped_own_parenthesis_left_open")
+		return
+	}
+	if seq[j] == -1 {
+		// the parenthesis of the run's last directive would stand in the including file: a directive and its parenthesis
+		// are one thing, and a file cannot open a parenthesis for a directive that ended in another file
+		t.Count("middle_split_skipped_parenthesis_after_include")
+		return
+	}
+	head := c06Render(seq[:i])
+	headMid := c06Render(seq[:j])
+	if !strings.HasPrefix(headMid, head) || !strings.HasPrefix(whole, headMid) {
+		return
+	}
+	mid, rest := headMid[len(head):], whole[len(headMid):]
+	if strings.TrimSpace(mid) == "" {
+		return
+	}
+	dSplit := run.Doc{Files: map[string][]byte{"root.jst": []byte(head + "INCLUDE mid.jst\n" + rest), "mid.jst": []byte(mid)}, Root: "root.jst"}
+	os := t.ExecKeep(dSplit)
+	if os.Outcome == run.Panic || os.Outcome == run.Budget {
+		c.Docs = []run.Doc{c.Docs[0], dSplit}
+		t.Violation("split-panic", fmt.Sprintf("%s %s; root %q mid %q", os.Outcome, os.PanicVal, head+"INCLUDE mid.jst\n"+rest, mid))
+		return
+	}
+	cls := func(o *run.Obs) string {
+		if o.Outcome != run.Rejected {
+			return ""
+		}
+		if rc := rejectionClass(o.Msg); !strings.HasPrefix(rc, "other:") {
+			return rc
+		}
+		return ""
+	}
+	t.Count("middle_splits_compared")
+	if around > 0 {
+		t.Count("middle_splits_inside_open_parentheses")
+	}
+	cw, cs := cls(ow), cls(os)
+	show := fmt.Sprintf("--- root\n%sINCLUDE mid.jst\n%s--- mid.jst\n%s", head, rest, mid)
+	if cw != cs || (ow.Outcome == run.Rejected) != (os.Outcome == run.Rejected) {
+		c.Docs = []run.Doc{c.Docs[0], dSplit}
+		t.Violation(fmt.Sprintf("middle-split-rejection:%s-vs-%s", orOK(cs), orOK(cw)), fmt.Sprintf("moving a run in the middle into an included file changes the verdict: uncut %s | cut %s\n%s", describe(ow), describe(os), show))
+		return
+	}
+	if cw != "" || ow.Core == nil || os.Core == nil {
+		return
+	}
+	gw, gs := renderKinds(resolver.FromDirectives(ow.Core.VerifDirectives())), renderKinds(resolver.FromDirectives(os.Core.VerifDirectives()))
+	if gw != gs {
+		c.Docs = []run.Doc{c.Docs[0], dSplit}
+		t.Violation("middle-split-tree-differs", fmt.Sprintf("moving a run in the middle into an included file changes the directive tree:\n  uncut: %s\n  cut:   %s\n%s", gw, gs, show))
+		return
+	}
+	t.Count("middle_split_trees_compared")
 }
 
 
